@@ -151,6 +151,7 @@ impl Disk {
             pos: 0,
             benign,
             faulty: true,
+            cut: None,
         }
     }
     /// a handle that never faults and is not counted as events (harness-side access)
@@ -254,11 +255,17 @@ pub struct SimFile {
     pub pos: u64,
     pub benign: Benign,
     pub faulty: bool,
+    /// a read never crosses this absolute offset (models the source splitting its data there)
+    pub cut: Option<u64>,
 }
 
 impl SimFile {
     pub fn set_pos(mut self, pos: u64) -> Self {
         self.pos = pos;
+        self
+    }
+    pub fn set_cut(mut self, cut: Option<u64>) -> Self {
+        self.cut = cut;
         self
     }
     pub fn clone_handle(&self) -> SimFile {
@@ -268,6 +275,7 @@ impl SimFile {
             pos: self.pos,
             benign: self.benign,
             faulty: self.faulty,
+            cut: self.cut,
         }
     }
 }
@@ -438,6 +446,14 @@ impl Read for SimFile {
         let avail = flen - pos;
         let mut n = buf.len().min(avail);
         let mut fault = 0u8;
+        if let Some(c) = self.cut {
+            let c = c as usize;
+            if pos < c && pos + n > c {
+                n = c - pos;
+                fault = 4;
+                fault_fired("split_at");
+            }
+        }
         if n == 0 {
             if !buf.is_empty() {
                 d.eof_polls += 1;
